@@ -439,7 +439,7 @@ PROPS["C09"] = dict(
                "to the current result); '<= 0 frames' is accepted for audio outside an utterance because the header says '< 0' while the long-standing "
                "behaviour is 0 plus an error message; malformed text inputs belong to C10 and damaged files to C17",
     rule="one case = one history on a fresh decoder; distinct = (case, number of calls).",
-    stages=[dict(harness="h_api", flavor="asan", quick=600, thorough=30000, leaks=True),
+    stages=[dict(harness="h_api", flavor="asan", quick=600, thorough=12000, leaks=True),
             # uninitialised reads are invisible to ASan: a slice of the same histories under valgrind memcheck, thorough tier only
             dict(harness="h_api", flavor="plain", valgrind=True, quick=0, thorough=48, tiers=["thorough"], name="h_api_memcheck")],
     floor=dict(min_evaluations=500, min_distinct=400, counters={"api_calls": 10000, "hostile_histories": 100, "conforming_histories": 250, "utterances_ended": 300,
